@@ -121,6 +121,13 @@ func init() {
 			Bound: "all sequences of <= 4 ranges over 0..6 and of <= 3 ranges over 0..9 (806,875 sequences); after each step: representation invariant, acknowledged set == recorded set, headers consistent"}},
 	})
 	props = append(props, &PropCfg{
+		ID:    "C24",
+		Pkgs:  []string{"./internal/pure"},
+		Funcs: `^\(\*Kernel\)\.checkTagCollisions$`,
+		Scope: "the tag check of the schema kernel (Kernel.checkTagCollisions, the only place where constructor tags are compared), TL1 half: if it returns no error then every TL1 combinator of every file has a non-zero tag and no two TL1 combinators - of the same or of different files - share a tag, for any number of files and combinators (the map of seen tags is modelled exactly)",
+		Unverified: []string{"the same for the magics of TL2 declarations (third loop of the function): its obligations range over an array of large nested records and do not discharge within the quick budget, so they are not claimed", "that Kernel.Compile stops on the error (one `if err := k.checkTagCollisions(); err != nil { return err }`, by inspection)", "that Combinator.Crc32 computes the documented CRC32 of the canonical form (C23) - it is used here as a function of the combinator", "tags of types instantiated from templates (they reuse the tag of their combinator)"},
+	})
+	props = append(props, &PropCfg{
 		ID:    "C30",
 		Pkgs:  []string{"./internal/tlcodegen"},
 		Funcs: "",
